@@ -5,6 +5,8 @@ package blockl
 import (
 	"fmt"
 	"net"
+	"os"
+	"strconv"
 	"strings"
 	"time"
 
@@ -616,9 +618,11 @@ func addrlistPart(rep *core.Report, col *collector) {
 	popReset := []alOp{{kind: opPop}, {kind: opReset}}
 	opMixed := alOp{kind: opPush, addrs: mixed, src: X}
 	opSpecials := alOp{kind: opPush, addrs: specials, src: T}
-	// reduced alphabet (deep) and full alphabet (one op shallower)
-	reduced := append(append(append([]alOp{}, singles...), popReset...), opMixed, opSpecials)
-	full := append(append([]alOp{}, singles...), popReset...)
+	// three alphabets: base (the pure push/pop/reset alphabet, deepest), reduced (+ the two mixed pushes),
+	// full (+ every special candidate alone, more multi-address pushes, the two remaining sources)
+	base := append(append([]alOp{}, singles...), popReset...)
+	reduced := append(append([]alOp{}, base...), opMixed, opSpecials)
+	full := append([]alOp{}, base...)
 	for _, a := range specials {
 		full = append(full, alOp{kind: opPush, addrs: []int8{a}, src: T})
 	}
@@ -628,20 +632,35 @@ func addrlistPart(rep *core.Report, col *collector) {
 		alOp{kind: opPush, addrs: []int8{G2, G3}, src: int8(peersource.Manual)},
 		alOp{kind: opPush, addrs: []int8{G1}, src: int8(peersource.Incoming)},
 	)
-	cfgs := []alCfg{{2, true, true}, {3, true, true}, {2, false, false}, {3, false, false}}
-	deepL, fullL := 6, 5
+	cfgs := []alCfg{{2, true, true}, {3, false, false}, {3, true, true}, {2, false, false}}
+	type plan struct {
+		tag      string
+		alphabet []alOp
+		cfgs     []alCfg
+		maxL     int
+	}
+	plans := []plan{{"full", full, cfgs, 4}, {"reduced", reduced, cfgs, 5}, {"base", base, cfgs, 6}}
 	if core.Thorough() {
-		cfgs = append(cfgs, alCfg{2, true, false}, alCfg{3, false, true}, alCfg{2, false, true}, alCfg{3, true, false})
-		deepL, fullL = 7, 6
+		all := append(append([]alCfg{}, cfgs...), alCfg{2, true, false}, alCfg{3, false, true}, alCfg{2, false, true}, alCfg{3, true, false})
+		plans = []plan{{"full", full, all[4:], 4}, {"full-deep", full, all[:4], 5}, {"reduced", reduced, all[4:], 5}, {"reduced-deep", reduced, all[:4], 6},
+			{"base", base, append(append([]alCfg{}, all[:2]...), all[3:]...), 6}, {"base-deep", base, all[2:3], 7}}
+	}
+	if v, err := strconv.Atoi(os.Getenv("VERIF_C18_DEBUG_DEPTH")); err == nil { // debugging aid only
+		for i := range plans {
+			if plans[i].maxL > v {
+				plans[i].maxL = v
+			}
+		}
+		rep.Cap("debug depth override")
 	}
 	var total alCounters
 	states := map[uint32]struct{}{}
 	var nSeq, nOps int64
-	s1, o1 := alEnumerate(rep, col, 6, "A/full", uniA, pub, cfgs, full, fullL, false, &total, states)
-	s2, o2 := alEnumerate(rep, col, 6, "A/reduced", uniA, pub, cfgs[:4], reduced, deepL, false, &total, states)
-	nSeq, nOps = s1+s2, o1+o2
-	rep.Extra["addrlist_full_alphabet"] = fmt.Sprintf("%d ops, length<=%d, %d configurations: %d sequences", len(full), fullL, len(cfgs), s1)
-	rep.Extra["addrlist_reduced_alphabet"] = fmt.Sprintf("%d ops, length<=%d, %d configurations: %d sequences", len(reduced), deepL, 4, s2)
+	for _, p := range plans {
+		s, o := alEnumerate(rep, col, 6, "A/"+p.tag, uniA, pub, p.cfgs, p.alphabet, p.maxL, false, &total, states)
+		nSeq, nOps = nSeq+s, nOps+o
+		rep.Extra["addrlist_alphabet_"+p.tag] = fmt.Sprintf("%d ops, every length<=%d, %d configurations: %d sequences", len(p.alphabet), p.maxL, len(p.cfgs), s)
+	}
 	rep.Extra["addrlist_own_public_interface_address_in_universe"] = len(pub) > 0
 
 	// ---- universe B: addresses whose BEP 40 priorities coincide (masked bits / same IP other port)
@@ -698,6 +717,13 @@ func addrlistPart(rep *core.Report, col *collector) {
 	rep.Extra["addrlist_filtered_blocked"] = total.filtered[admBlocked]
 	rep.Extra["addrlist_collision_universe_refreshed"] = totalB.refreshed
 	rep.Sample(8, map[string]any{"part": "addrlist", "config": cfgs[0].String(), "ops": renderOps(newAlCtx(cfgs[0], uniA, pub), []alOp{singles[0], opMixed, {kind: opPop}, full[len(full)-4], {kind: opPop}, {kind: opReset}}, 99)})
+	rep.Sample(8, map[string]any{"part": "addrlist", "universe": func() []string {
+		var s []string
+		for _, a := range uniA {
+			s = append(s, a.name+"="+a.String())
+		}
+		return s
+	}()})
 	if total.evicted == 0 || total.refreshed == 0 || total.popHit == 0 || total.popEmpty == 0 || total.resetNonEmpty == 0 ||
 		total.filtered[admPort0] == 0 || total.filtered[admOwn] == 0 || total.filtered[admOwnIP] == 0 || total.filtered[admBlocked] == 0 {
 		core.HarnessError("addrlist part vacuous: %+v", total)
@@ -783,7 +809,9 @@ func alReloadUniverse(col *collector, pub []net.IP) (nSeq, nOps, nPops int64) {
 							var as []*net.TCPAddr
 							for _, a := range o.addrs {
 								as = append(as, uni[a].tcp)
-								freeAtPush[a] = !inRanges(current, ipv(uni[a].tcp))
+								if !inRanges(current, ipv(uni[a].tcp)) {
+									freeAtPush[a] = true // (re)queued while no loaded range contained it
+								}
 							}
 							for !time.Now().After(after) {
 							}
@@ -791,6 +819,7 @@ func alReloadUniverse(col *collector, pub []net.IP) (nSeq, nOps, nPops int64) {
 							after = time.Now()
 						case opReset:
 							al.Reset()
+							freeAtPush = [2]bool{}
 						case opReload:
 							if _, err := bl.Reload(strings.NewReader(reloadLists[o.list])); err != nil {
 								core.HarnessError("reload universe: %v", err)
@@ -802,9 +831,13 @@ func alReloadUniverse(col *collector, pub []net.IP) (nSeq, nOps, nPops int64) {
 								continue
 							}
 							pops[w]++
+							i := ctxR.indexOf(a)
+							wasFree := i >= 0 && freeAtPush[i]
+							if i >= 0 {
+								freeAtPush[i] = false
+							}
 							if inRanges(current, ipv(a)) {
-								i := ctxR.indexOf(a)
-								if i >= 0 && freeAtPush[i] {
+								if wasFree {
 									report("forbidden.blocked-after-reload", fmt.Sprintf("Pop() returned %s, which the currently loaded blocklist %s blocks (it was pushed before that list was loaded)", a, fmtRanges(current)))
 								} else {
 									report("forbidden.blocked", fmt.Sprintf("Pop() returned %s, which the blocklist %s blocks", a, fmtRanges(current)))
